@@ -1,4 +1,5 @@
 """C15 - spectrum integration, binning and resizing keep the spectrum well formed."""
+from fractions import Fraction
 import ast
 
 from .. import nf
@@ -238,6 +239,7 @@ def run(chk, repo, tier):
     fpad = cls.find_method('pad')
     _, ppaths, _ = analyse(repo, fpad)
     okpad, npad, detpad = True, 0, ''
+    okgrid, detgrid = True, ''
     for p in [x for x in ppaths if x.status != 'raise']:
         st = stores(p)
         if not ({'wave', 'value'} <= set(st)):
@@ -262,8 +264,21 @@ def run(chk, repo, tier):
                                        f'{"left" if k == 0 else "right"} wavelengths'
         if not (_is_self_array(wa[2][0].items[1], 'wave') and _is_self_array(va[2][0].items[1], 'value')):
             okpad, detpad = False, 'the original samples are not kept in the middle'
+        # the padding wavelengths stop short of the existing end samples: counted (linspace with the end point dropped), not
+        # stepped with a float-step arange whose last element may land on (or 1e-16 beside) the existing first / last sample
+        for k in (0, 2):
+            for x in nf.value_atoms(wa[2][0].items[k]):
+                if is_app(x, 'arange') and len([y for y in x[2] if isinstance(y, Poly)]) == 3:
+                    step = [y for y in x[2] if isinstance(y, Poly)][2]
+                    if step.const_value() is None or Fraction(step.const_value()).denominator != 1:
+                        okgrid = False
+                        detgrid = f'{"left" if k == 0 else "right"} padding = {nf.fmt_atom(x)[:100]}: a float-step arange does not ' \
+                                  f'reliably exclude its stop value (the existing end sample)'
     chk.ob('C15-b', 'D-pairing', fpad.key, 'pad: each padded wavelength gets one padded value (left with left, right with right)',
            (okpad and npad > 0) if (npad or not okpad) else None, detpad or f'{npad} path(s)', fpad.loc())
+
+    chk.ob('C15-a', 'N-formula', fpad.key, 'pad: the padding wavelengths are counted, they cannot coincide with an existing end sample',
+           okgrid if npad else None, detgrid or 'no float-step arange in the padding', fpad.loc())
 
     # ------------------------------------------------------------ C15-e / f
     fb = cls.find_method('bin')
